@@ -40,3 +40,8 @@ add("C12", "exploration", "stateful property-based testing (proptest op sequence
     "Operation sequences and operand pairs of all relationship classes across the inline-storage limit, every constructor and ownership variant, compared with BTreeSet; ancestor queries of all term pairs compared with set algebra on the model closure.",
     "all_union_* convention pinned to the doctests; ids from a 96-entry pool incl. u32 borders.",
     "DESIGN.md section 4, C12")
+
+add("C06", "exploration", "property-based testing (proptest): generated backgrounds/samples and k-sweeps vs exact big-integer hypergeometric tails",
+    "Search over generated backgrounds and samples on a fixed 441-term ontology with 90 records whose K spans 1..420 (both sides of the 170-entry factorial table); every (record, N, K, n, k) tuple is compared with the exact rational tail, fold change, count and record set; range and monotonicity in k exact.",
+    "Exact tail from a Pascal triangle over u32-limb integers (about 100 lines, unit-tested against Python fractions); tolerance 1e-9 relative.",
+    "DESIGN.md section 4, C06")
